@@ -558,5 +558,27 @@ func c13Models(r *h.Result, rng *h.Rng, tier string) error {
 	if err := c13ModelProm(r, rng.Fork(), n); err != nil {
 		return err
 	}
-	return c13ModelProf(r, rng.Fork(), n)
+	if err := c13ModelProf(r, rng.Fork(), n); err != nil {
+		return err
+	}
+	if err := c13ModelTempo(r, rng.Fork(), n); err != nil {
+		return err
+	}
+	if err := c13JudgeTempo(r, rng.Fork(), n); err != nil {
+		return err
+	}
+	if err := c13ModelTempoLegacy(r, rng.Fork(), n); err != nil {
+		return err
+	}
+	if err := c13HTTPTempo(r, rng.Fork(), n); err != nil {
+		return err
+	}
+	if err := c13ModelProfPlans(r, rng.Fork(), n); err != nil {
+		return err
+	}
+	tails, ticks := 5, 3
+	if tier != "quick" {
+		tails, ticks = 15, 5
+	}
+	return c13ModelTail(r, rng.Fork(), tails, ticks)
 }
